@@ -332,7 +332,10 @@ func (m *Mux) encError(w http.ResponseWriter, r *http.Request, err error) {
 	w.Header().Set("Content-Type", accept)
 	w.WriteHeader(HTTPStatusCode(s.Code()))
 
-	b, err := c.Marshal(s.Proto())
+	p := s.Proto()
+	// Error text may quote request bytes: keep the status marshalable.
+	p.Message = strings.ToValidUTF8(p.Message, "\uFFFD")
+	b, err := c.Marshal(p)
 	if err != nil {
 		panic(err) // ...
 	}
